@@ -233,6 +233,11 @@ class WindowOracle:
             if role != h['I']:
                 return self.viol('wrong_initiator_flag', dict(sig, role='initiator' if role else 'responder'),
                                  f'{N} emitted I={h["I"]} on an IKE_SA where it is {"initiator" if role else "responder"}')
+            if h['exch'] == 34 and not h['R'] and any(h['spi_r']):
+                # the responder's SPI is not known before its IKE_SA_INIT response has been accepted: every (re)try of the request carries 0
+                # (a COOKIE / INVALID_KE_PAYLOAD answer comes from a responder IKE_SA that no longer exists)
+                return self.viol('ike_sa_init_request_with_responder_spi', sig, f'{N} emitted an IKE_SA_INIT request whose responder SPI is '
+                                                                               f'{h["spi_r"].hex()} instead of 0')
             peer_known = self._peer_spi(node, own)
             if peer_known is not None and peer_known != other and not (h['exch'] == 34 and not h['R']):
                 return self.viol('wrong_peer_spi', sig, f'{N} emitted peer SPI {other}, IKE_SA has {peer_known}')
